@@ -19,7 +19,7 @@
    changes, all other elements and their order stay"). *)
 From Coq Require Import List ZArith Bool Arith Lia.
 From SC Require Import Base.Res Base.PyList Inst.Heap Inst.ClassTable Inst.Model Inst.Canon Inst.Abs
-  Inst.SpecHelpers Inst.ElemProofs Inst.RefineProofs Inst.CopyProofs Inst.ElemRefine Inst.ElemRefine2 Inst.ElemRefine3 Inst.ElemRefine4 Inst.ElemRefine5 Inst.ElemRefine6 Inst.ElemRefine7 Inst.ElemRefine8 Inst.ElemRefine9 Inst.ElemRefineGuard.
+  Inst.SpecHelpers Inst.ElemProofs Inst.RefineProofs Inst.CopyProofs Inst.ElemRefine Inst.ElemRefine2 Inst.ElemRefine3 Inst.ElemRefine4 Inst.ElemRefine5 Inst.ElemRefine6 Inst.ElemRefine7 Inst.ElemRefine8 Inst.ElemRefine9 Inst.ElemRefine10 Inst.ElemRefineGuard.
 Import ListNotations.
 Open Scope nat_scope.
 
@@ -418,7 +418,7 @@ Qed.
    element type; proper_elems: no sentinel object inside the list; by_value_ok / set_key_free:
    see above.  refines_spec: the model run and spec_helper agree on the result state (the
    receiver itself is returned) and on the error class, and an error leaves the heap alone.
-   STILL MISSING for the full statement: item preparers, keywords / spec elements, nested
+   STILL MISSING for the full statement: item preparers on update_<item>, keywords / spec elements, nested
    receivers, in-place calls on a shared container, classes with invalidated_by.
    (The copy-on-write flag of with_/without_<item> is C06_elem_helpers_copy_refine_guarded_partial.) *)
 Theorem C06_elem_helpers_refine_guarded_partial : forall ct h0 s l a,
@@ -762,6 +762,64 @@ Example C06_dict_set_change_examples :
   run (HTransformItem 3) (mkh [VInt 9] true true VMissing false None None [] (Some FId)) = SErr ValueErr.
 Proof. vm_compute. repeat split. Qed.
 
+(* ITEM PREPARERS (Inst/ElemRefine10.v).  with_<item> on a List / Dict / Set attribute of scalars
+   whose class declares `_prepare_<item>` as a pool function mapping scalars to scalars or
+   raising (prep_items; no preparer is the special case): the new element is run through the
+   preparer FIRST (its TypeError / user error is the outcome; a missing target index is still
+   reported before the preparer runs), the prepared element is type-checked (ValueError) and
+   inserted; in place (refines_spec) and copy-on-write (copy_refines_spec).  set_prep_ok: the
+   prepared element has an unambiguous place in the canonical order of the set abstraction. *)
+Theorem C06_with_item_preparer_refine_guarded_partial : forall ct h0 s l a,
+  prep_items ct s l a = true -> fail_at s = None ->
+  (elem_guard ct s l a KList = true ->
+     forall idx v ins, vscalar v = true -> (idx = VMissing \/ exists i, idx = VInt i) ->
+       refines_spec ct h0 s l (HWithItem a) (mkh [v] true true idx ins None None [] None)
+                    (SWithItem a) (mkah [abs0 v] true true (abs0 idx) ins None None [] None)) /\
+  (copy_guard ct s l a KList = true ->
+     forall idx v ins, vscalar v = true -> (idx = VMissing \/ exists i, idx = VInt i) ->
+       copy_refines_spec ct h0 s l (HWithItem a) (mkh [v] false true idx ins None None [] None)
+                         (SWithItem a) (mkah [abs0 v] false true (abs0 idx) ins None None [] None)) /\
+  (elem_guard ct s l a KDict = true ->
+     forall key v, nonref key = true -> vscalar v = true ->
+       refines_spec ct h0 s l (HWithItem a) (mkh [key; v] true true VMissing false None None [] None)
+                    (SWithItem a) (mkah [abs0 key; abs0 v] true true AMissing false None None [] None)) /\
+  (copy_guard ct s l a KDict = true ->
+     forall key v, nonref key = true -> vscalar v = true ->
+       copy_refines_spec ct h0 s l (HWithItem a) (mkh [key; v] false true VMissing false None None [] None)
+                         (SWithItem a) (mkah [abs0 key; abs0 v] false true AMissing false None None [] None)) /\
+  (elem_guard ct s l a KSet = true ->
+     forall v, vscalar v = true -> set_prep_ok ct s l a v = true ->
+       refines_spec ct h0 s l (HWithItem a) (mkh [v] true true VMissing false None None [] None)
+                    (SWithItem a) (mkah [abs0 v] true true AMissing false None None [] None)) /\
+  (copy_guard ct s l a KSet = true ->
+     forall v, vscalar v = true -> set_prep_ok ct s l a v = true ->
+       copy_refines_spec ct h0 s l (HWithItem a) (mkh [v] false true VMissing false None None [] None)
+                         (SWithItem a) (mkah [abs0 v] false true AMissing false None None [] None)).
+Proof.
+  intros ct h0 s l a P Hfa. repeat split; intro G.
+  - intros idx v ins Hv Hi. now apply with_item_list_prep_guarded.
+  - intros idx v ins Hv Hi. now apply with_item_list_prep_copy_guarded.
+  - intros key v Hk Hv. now apply with_item_dict_prep_guarded.
+  - intros key v Hk Hv. now apply with_item_dict_prep_copy_guarded.
+  - intros v Hv Hok. now apply with_item_set_prep_guarded.
+  - intros v Hv Hok. now apply with_item_set_prep_copy_guarded.
+Qed.
+
+(* non-vacuity: the example class with `_prepare_x = lambda x: x + 10` on xs and t *)
+Example C06_preparer_examples :
+  elem_guard ex_ct_prep ex_state 0 1 KList = true /\ prep_items ex_ct_prep ex_state 0 1 = true /\
+  prep_items ex_ct_prep ex_state 0 3 = true /\ plain_items ex_ct_prep ex_state 0 1 = false /\
+  set_prep_ok ex_ct_prep ex_state 0 3 (VInt 1) = true /\
+  nth 1 (heap (snd (run_helper ex_ct_prep 0 (HWithItem 1) (mkh [VInt 1] true true (VInt (-1)) false None None [] None) ex_state))) (OList [])
+    = OList [VInt 1; VInt 0; VInt 1; VInt 11] /\
+  nth 3 (heap (snd (run_helper ex_ct_prep 0 (HWithItem 3) (mkh [VInt 1] true true VMissing false None None [] None) ex_state))) (OList [])
+    = OSet [VInt 2; VInt 0; VInt 11] /\
+  nth 3 (heap (snd (run_helper ex_ct_prep 0 (HWithItem 3) (mkh [VInt (-10)] true true VMissing false None None [] None) ex_state))) (OList [])
+    = OSet [VInt 2; VInt 0] /\
+  fst (run_helper ex_ct_prep 0 (HWithItem 1) (mkh [VStr 1] true true VMissing false None None [] None) ex_state) = Err TypeErr /\
+  fst (run_helper ex_ct_prep 0 (HWithItem 1) (mkh [VStr 1] true true (VInt 9) false None None [] None) ex_state) = Err IndexErr.
+Proof. vm_compute. repeat split. Qed.
+
 (* WHY by_value_ok IS NEEDED — a finding.  xs : List[int] holding [1, 0, 1, 0];
    transform_<item>(True, lambda x: x): True has the element type, so the target is addressed
    BY VALUE; True == 1 finds position 0.  "Replace by transformed value" (spec_change_item)
@@ -823,5 +881,7 @@ Print Assumptions C06_elem_helpers_missing_container_refine_guarded_partial.
 Print Assumptions C06_missing_guard_examples.
 Print Assumptions C06_dict_set_change_item_refine_guarded_partial.
 Print Assumptions C06_dict_set_change_examples.
+Print Assumptions C06_with_item_preparer_refine_guarded_partial.
+Print Assumptions C06_preparer_examples.
 Print Assumptions C06_by_value_transforms_argument_refuted.
 Print Assumptions C06_examples.
